@@ -148,7 +148,9 @@ class _Strings:
 # ------------------------------------------------------------------------------------------------------------------ times
 TIME_BOUNDARIES_MS = [0, 1, 999, 1000, 1001, 59999, 86399999, 86400000, 946684799999, 946684800000, 1577836799999,
                       1577836800000, 1582934400000, 1609459199999, 1609459200000, 2147483647000, 2147483647999,
-                      2147483648000, 4102444799999, 4102444800000, 253402300799999]
+                      2147483648000, 4102444799999, 4102444800000, 8589934591999]
+# NB the last value is 2**33 s - 1 ms (year 2242): above 2**33 s the spacing of floats exceeds one microsecond and
+# format_time_as_iso8601 (isoformat truncates the microseconds) no longer preserves whole milliseconds; C09 states this bound.
 
 
 class _Clock:
